@@ -124,6 +124,32 @@ Theorem P_case_literals_digits_partial :
 Proof. exact case_literals_digits. Qed.
 Print Assumptions P_case_literals_digits_partial.
 
+(* Position independence (whole parser, closed): the parser takes no decision on absolute positions.  Parsing the same
+   remaining text k characters further to the right gives the same outcome with every token offset, every block
+   `.ctx` and every diagnostic span moved by k -- for every text, every fuel, every start offset. *)
+From Verif Require Import Proofs.StmtParseShift.
+Theorem P_position_independent :
+  forall (fuel : nat) (p k : N) (text : list N),
+    parse_at fuel (p + k) text = shift_result k (parse_at fuel p text).
+Proof. exact parse_position_independent. Qed.
+Print Assumptions P_position_independent.
+
+(* Whole-tree blank insensitivity, the case that is proved: blank material (blanks, newlines, closed comments) in
+   front of the first statement of a file leaves the whole tree and all diagnostics unchanged up to the uniform shift
+   by its length (from P_blank_absorbed, skip idempotence and P_position_independent).  The hypothesis only excludes
+   the file without any statement, whose empty block is (0, 0) in both cases.
+   NOT proved: blank material inserted between two tokens further inside a statement.  That needs a two-run
+   simulation whose side condition depends on the run (no token of the original text may span the insertion point,
+   and the point must not be one of the places where the parser looks at ctx.code[ctx.pos] without skipping blanks:
+   after a quote, before '::' / '==', at the missing-whitespace checks, inside literal-text operands); for tokens
+   see P_blank_insensitive_partial, for whole programs the respell streams. *)
+Theorem P_leading_blank_insensitive :
+  forall (fuel : nat) (ws text : list N),
+    blank_run ws -> ctx_eof (mkCtx 0 text) = false ->
+    parse_file (S fuel) (ws ++ text) = shift_result (len ws) (parse_file (S fuel) text).
+Proof. exact leading_blank_insensitive. Qed.
+Print Assumptions P_leading_blank_insensitive.
+
 Example P_blank_example :
   blank_run [32; 9; 59; 99; 10; 32] /\
   sim (comma (mkCtx 0 ([32; 9; 59; 99; 10; 32] ++ [44; 49])) []) (comma (mkCtx 7 [44; 49]) []).
